@@ -22,6 +22,9 @@ structure Cube (K : Type) where
   s1 : Int
   get : Int → Int → Int → K
 
+/-- slice `k` of a cube -/
+def Cube.slice (a : Cube K) (k : Int) : Arr K := { s0 := a.s0, s1 := a.s1, get := a.get k }
+
 /-! ## `util.pad` -/
 
 /-- `padded[rmin1:rmax1, cmin1:cmax1] = array[rmin0:rmax0, cmin0:cmax0]` on a zero array of shape `(S0, S1)` -/
